@@ -22,6 +22,7 @@ import annotate  # noqa
 
 SRC_FILES = ["error.c", "expression.c", "fifo.c", "ieee488.c", "lexer.c", "minimal.c",
              "parser.c", "units.c", "utils.c"]
+MAX_REPORT = 4
 SOLVERS = {
     "minisat": [],
     "cadical": ["--sat-solver", "cadical"],
@@ -51,7 +52,7 @@ def load_jobs():
         j.setdefault("defines", [])
         j.setdefault("cbmc_flags", [])
         j.setdefault("cc_flags", [])
-        j.setdefault("timeout", 900)
+        j.setdefault("timeout", 120)
         j.setdefault("mem_gb", 12)
         j.setdefault("solver", "minisat")
         j.setdefault("reach", ["reach"])  # prefixes of assert(0) guards that must FAIL
@@ -134,7 +135,7 @@ def run_job(job, scratch_root, keep=False):
     cc += ["--function", entry, harness, "-o", a]
     rc, out, err, _ = sh(cc, cwd=wd, timeout=300)
     if rc != 0:
-        res["note"] = "goto-cc failed: " + (err or out)[-2000:]
+        res["note"] = "goto-cc failed: " + " | ".join([l for l in (err + out).splitlines() if "error" in l.lower()][:4])[:1500]
         res["wall_s"] = time.time() - t0
         return res
     gi = ["goto-instrument", "--dfcc", entry]
@@ -220,6 +221,8 @@ def run_job(job, scratch_root, keep=False):
                            "file": os.path.basename(loc.get("file", "")), "line": loc.get("line", ""),
                            "function": loc.get("function", ""),
                            "trace": p.get("trace", [])})
+    lib_fail = [f for f in failed if f["property"].startswith("__CPROVER_contracts_")]
+    failed = [f for f in failed if not f["property"].startswith("__CPROVER_contracts_")]
     res["obligations"] = n
     res["classes"] = classes
     res["failed"] = failed
@@ -240,6 +243,8 @@ def run_job(job, scratch_root, keep=False):
             vac.append("no %s obligation generated" % need)
     if n == 0:
         vac.append("zero obligations")
+    for f in lib_fail:
+        vac.append("DFCC library obligation not discharged: %s %s" % (f["property"], f["description"]))
     res["vacuity"] = vac
     if vac:
         res["status"] = "vacuous"
@@ -408,17 +413,25 @@ def main():
         if rec.get("property") == args.prop or args.prop == "ALL" or args.prop in r["_job"]["props"]:
             out_lines.append("KNOWN-FINDING: property=%s %s [%s: %s]" % (args.prop, rec["text"], f["property"], f["description"]))
     seen = set()
+    perjob = {}
     for j, f, r in violations:
         key = (j["name"], f["property"])
         if key in seen:
             continue
         seen.add(key)
+        perjob[j["name"]] = perjob.get(j["name"], 0) + 1
+        rc_final = 1
+        if perjob[j["name"]] > MAX_REPORT:
+            continue
         path = write_replay(args.prop, j, f, r)
         rep = native_replay(j, path)
         suffix = "" if rep else " no-failing-input-found"
         out_lines.append("VIOLATION property=%s replay=%s job=%s obligation=%s (%s)%s" % (
             args.prop, path, j["name"], f["property"], f["description"][:120], suffix))
         rc_final = 1
+    for jn, cnt in perjob.items():
+        if cnt > MAX_REPORT:
+            out_lines.append("NOTE job=%s has %d more failed obligations (not listed)" % (jn, cnt - MAX_REPORT))
     for r in tool_errors:
         out_lines.append("TOOL-ERROR job=%s status=%s %s" % (r["job"], r["status"], (r.get("note") or "")[:500].replace("\n", " ")))
         if rc_final == 0:
